@@ -319,6 +319,13 @@ func censusOf(p *Prog, f *ssa.Function) map[[2]string]int {
 }
 
 func resolveAnchor(p *Prog, anchor string) *ssa.Function {
+	// the two task functions are resolved structurally (the functions launched by processBlock)
+	switch anchor {
+	case "io:decodingTask.decode":
+		return resolveSide(p, "Reader").fn
+	case "io:encodingTask.encode":
+		return resolveSide(p, "Writer").fn
+	}
 	rel, rest, _ := strings.Cut(anchor, ":")
 	if typ, m, ok := strings.Cut(rest, "."); ok {
 		return p.Method(rel, typ, m)
